@@ -58,7 +58,7 @@ def worker(slot):
                 print('NOAPPLY ' + k, flush=True)
             continue
         try:
-            p = subprocess.run(['./check', cid, 'quick'], capture_output=True, text=True, timeout=5400,
+            p = subprocess.run(['./check', cid, 'quick'], capture_output=True, text=True, errors='replace', timeout=5400,
                                env=dict(ENV, VERIF_REPO=wt, VERIF_BUILD=os.path.join(ROOT, f'.build-slot{slot}')))
             rc, txt = p.returncode, p.stdout + p.stderr
         except subprocess.TimeoutExpired as e:
